@@ -1,6 +1,7 @@
 """C17 - embedded docstrings are the right text, correctly escaped, change nothing else (Engines E, F)."""
 from .. import rules_flow as RF
 from .. import rules_xml as RX
+from .. import rules_pybind as RP
 
 ID = "C17"
 EXPLANATION = (
@@ -22,6 +23,7 @@ ASSUMPTIONS = ["xml.etree.ElementTree: Element.find returns None when nothing ma
 
 
 def run(ctx, rep):
+    rep.run(RP.rule_templates_are_constant, ctx, rep, "Q10")
     rep.run(RX.rule_confinement, ctx, rep, "Q1")
     rep.run(RX.rule_optional_results, ctx, rep, "Q2", min_sites=8)
     rep.run(RX.rule_element_truthiness, ctx, rep, "Q2")
